@@ -359,7 +359,7 @@ Proof.
   - inversion E; subst. split; [apply frame0_refl|exact I].
   - destruct (nnext m h).
     + destruct (0 <? cnt).
-      * inversion E; subst. split; [apply frame0_refl|]. destruct inm; cbn; [left|]; reflexivity.
+      * destruct inm; inversion E; subst; (split; [apply frame0_refl|]); [unfold wloop; destruct (wc <? cnt); exact I|reflexivity].
       * inversion E; subst. split; [apply frame0_refl|]. unfold wloop. destruct (wc <? cnt); exact I.
     + inversion E; subst. split; [apply frame0_refl|exact I].
   - inversion E; subst. split; [repeat split; auto|exact I].
@@ -595,8 +595,8 @@ Lemma wake_step_wc m t q cnt wc kp inm m' res :
 Proof.
   intros E NJ. destruct kp as [|h|h nx|h nx|h d|h|f|f|sp]; cbn in E; cbn [sched_of].
   - inversion E; subst. reflexivity.
-  - destruct (nnext m h); [destruct (0 <? cnt)|]; inversion E; subst; try reflexivity.
-    unfold wloop. destruct (wc <? cnt); reflexivity.
+  - destruct (nnext m h); [destruct (0 <? cnt); [destruct inm|]|]; inversion E; subst; try reflexivity;
+      unfold wloop; destruct (wc <? cnt); reflexivity.
   - inversion E; subst. reflexivity.
   - inversion E; subst. reflexivity.
   - inversion E; subst. reflexivity.
